@@ -30,7 +30,7 @@ import (
 
 type vfScen struct {
 	ID       string `json:"id"`
-	Kind     string `json:"kind"`     // perio | mcast | stop | once | retain | tickfail
+	Kind     string `json:"kind"`     // perio | mcast | stop | once | retain | tickfail | stopearly
 	N        int    `json:"n"`        // sessions
 	U        int    `json:"u"`        // periodic URRs per session
 	Bulk     string `json:"bulk"`     // reassoc | delete
@@ -270,6 +270,26 @@ func vfRunScenario(t *testing.T, k int, s vfScen) vfScenOut {
 	st.installPsMarker()
 	st.start()
 	en := &vfStressEnv{k: k, nw: nw, x: x, st: st}
+	if s.Kind == "stopearly" {
+		// Stop at once: the event loop may not even have opened its socket yet
+		if s.RunMs > 0 {
+			time.Sleep(time.Duration(s.RunMs) * time.Microsecond)
+		}
+		if err := st.stop(8 * time.Second); err != nil {
+			o.Stopped = false
+			o.Fatal = "Stop right after Start: " + err.Error()
+			_, o.Dump = vfBlockedSig(vfDump())
+		} else {
+			time.Sleep(30 * time.Millisecond)
+			if left := vfLeft(vfDump()); left != "" {
+				o.Stopped = false
+				o.Dump = left
+				o.Fatal = "Stop right after Start returned, but goroutines of the UPF are still alive (the server keeps serving)"
+			}
+		}
+		o.WallMs = int(time.Since(t0) / time.Millisecond)
+		return o
+	}
 	time.Sleep(30 * time.Millisecond)
 	if _, ok := en.call("p1", vfEvent{T: "assoc", Node: "n1"}, 10*time.Second); !ok {
 		t.Fatalf("INFRA: association not answered (address in use?)")
